@@ -9,9 +9,11 @@ Keyvalues: copy() and the operators documented as producing new values; Vec/Angl
 from __future__ import annotations
 
 import array
+import copy
 import enum
 import io
 import itertools
+import pickle
 import re
 
 from srctools.keyvalues import Keyvalues
@@ -168,6 +170,9 @@ def copies_of(vmf: VMF, other: VMF):
         yield f'entity[{i}]->other', e, lambda e=e: e.copy(vmf_file=other)
         for j, o in enumerate(e.outputs):
             yield f'entity[{i}].output[{j}]', o, lambda o=o: o.copy()
+            yield f'entity[{i}].output[{j}]:copy.copy', o, lambda o=o: copy.copy(o)
+            yield f'entity[{i}].output[{j}]:deepcopy', o, lambda o=o: copy.deepcopy(o)
+            yield f'entity[{i}].output[{j}]:pickle', o, lambda o=o: pickle.loads(pickle.dumps(o))
         for j, s in enumerate(e.solids):
             yield f'entity[{i}].solid[{j}]', s, lambda s=s: s.copy()
     for i, s in enumerate(vmf.brushes):
@@ -264,8 +269,34 @@ def check_copy(acc: core.Acc, case: dict, label: str, orig, make_copy) -> None:
             break
 
 
+def check_keep_vis(acc: core.Acc, case: dict, names) -> None:
+    """copy(keep_vis=False) == copy() with exactly the documented visibility fields reset (differential oracle)."""
+    vmf = vmfgen.build(names)
+    objs = [(f'entity[{i}]', e) for i, e in enumerate(vmf.entities)] + [(f'brush[{i}]', s) for i, s in enumerate(vmf.brushes)] \
+        + [(f'entity[{i}].solid[{j}]', s) for i, e in enumerate(vmf.entities) for j, s in enumerate(e.solids)]
+    for label, obj in objs:
+        acc.evaluations += 1
+        try:
+            ref = obj.copy()
+            ref.hidden = False
+            ref.vis_shown = True
+            ref.vis_auto_shown = True
+            ref.visgroup_ids.clear()
+            got = obj.copy(keep_vis=False)
+        except Exception as exc:  # noqa: BLE001
+            acc.fail('copy_raises', dict(case, obj=label, keep_vis=False), f'{case} {label}: copy(keep_vis=False) raised {type(exc).__name__}: {exc}', obj=kind_of(label))
+            continue
+        a, b = norm_ids(text_of(ref)).split('\n'), norm_ids(text_of(got)).split('\n')
+        if a != b:
+            i = next((i for i, (x, y) in enumerate(zip(a, b)) if x != y), min(len(a), len(b)))
+            acc.fail('copy_incomplete', dict(case, obj=label, keep_vis=False),
+                     f'{case} {label}: copy(keep_vis=False) differs from copy() with the visibility fields reset at line {i}:\n'
+                     f'  expected: {a[i-1:i+2]}\n  got     : {b[i-1:i+2]}', obj=kind_of(label), line_key='keep_vis')
+
+
 def check_map(acc: core.Acc, names) -> None:
     case = {'features': list(names)}
+    check_keep_vis(acc, case, names)
     # enumerate labels on one build; every copy is then taken from a fresh build so that mutations never leak
     probe = vmfgen.build(names)
     labels = [lab for lab, _, _ in copies_of(probe, VMF())]
